@@ -36,23 +36,23 @@ type fakePeer struct {
 
 	conn *simConn // fake's endpoint of the connection
 	// the node's outbound stream (node -> fake); fake's endpoint
-	in       *simStream
-	inGen    int
-	inOpened time.Duration
+	in            *simStream
+	inGen         int
+	inOpened      time.Duration
 	helloExpected bool
 	// fake's outbound stream (fake -> node); fake's endpoint
 	out *simStream
 
-	version int
+	version     int
 	everStalled bool
 	c11cursor   int
 	c03cursor   int
 	disturbed   bool // its connection or the node's outbound stream to it was ever torn down
-	recv    []wireObs
-	rbuf    []byte
-	outBytes []byte // every byte sent on the current outbound stream (framing model for C12)
-	badWire int
-	seqno   uint64
+	recv        []wireObs
+	rbuf        []byte
+	outBytes    []byte // every byte sent on the current outbound stream (framing model for C12)
+	badWire     int
+	seqno       uint64
 
 	onFrame func(o *wireObs) // oracle callback at the quiescence in which the frame was written
 }
